@@ -180,7 +180,10 @@ func gen(t *rapid.T) Case {
 	if rapid.IntRange(0, 3).Draw(t, "movedhistory") == 1 {
 		c.Moved = rapid.SampledFrom([]string{"A", "B", "B"}).Draw(t, "moved")
 	}
-	if rapid.IntRange(0, 2).Draw(t, "scaled") == 1 {
+	if c.A.T == "Bounds" && c.B.T == "Bounds" && c.EmptyA == "" && c.EmptyB == "" && rapid.IntRange(0, 2).Draw(t, "boxscale") == 1 {
+		// two boxes: any magnitude (their Intersection is corner arithmetic)
+		c.ScaleExp = rapid.IntRange(-1040, 900).Draw(t, "boxscaleexp")
+	} else if rapid.IntRange(0, 2).Draw(t, "scaled") == 1 {
 		c.ScaleExp = rapid.OneOf(rapid.IntRange(-10, 40), rapid.IntRange(-10, 40), rapid.IntRange(-10, 40), rapid.IntRange(-60, -10), rapid.IntRange(-200, 200)).Draw(t, "scale_exp")
 	}
 	if f := os.Getenv("VERIF_C01_FORCEK"); f != "" { // threshold experiments only (DESIGN.md section 5, tiny_absolute_extent)
@@ -406,6 +409,13 @@ func nearVerticalEdge(c Case) bool {
 // m < 8e-14*sqrt(2), i.e. s < 1.2e-6. The finding is therefore the class s < 1e-3 (observed: wrong regions - an
 // Intersection that is empty or keeps area the operands do not share - from s = 5e-6 down, none seen above).
 func tinyAbsoluteScale(c Case) bool {
+	if boxPair(c) {
+		return false // two boxes: their Intersection does not go near the clipper and is judged at any scale (see run)
+	}
+	return tinyScale(c)
+}
+
+func tinyScale(c Case) bool {
 	if c.ScaleExp >= 0 {
 		return false
 	}
@@ -416,8 +426,16 @@ func tinyAbsoluteScale(c Case) bool {
 	return scale*math.Ldexp(1, c.ScaleExp) < 1e-3
 }
 
+// boxPair: both operands are (non-empty) boxes.
+func boxPair(c Case) bool {
+	return c.A.T == "Bounds" && c.B.T == "Bounds" && c.EmptyA == "" && c.EmptyB == ""
+}
+
 func run(c Case) (v vkit.Verdict) {
 	pa, pb := polysOf(c.A), polysOf(c.B)
+	// two boxes multiplied by 2^k for k far outside the clipper's working range: only Intersection (computed on the
+	// corners) is judged there, the other three operations go through the clipper (known finding at tiny scales)
+	onlyIntersection := boxPair(c) && (tinyScale(c) || c.ScaleExp > 200)
 	ta, tb := c.A.T, c.B.T // operand types for the messages
 	if c.EmptyA != "" {
 		pa, ta = nil, emptyType(c.EmptyA)
@@ -566,6 +584,9 @@ func run(c Case) (v vkit.Verdict) {
 		tol := 1e-9 * (areaA + areaB)
 		var areaR [4]float64
 		for op := 0; op < 4; op++ {
+			if onlyIntersection && op != 0 {
+				continue
+			}
 			var res geom.Polygonal
 			if p := vkit.Catch(func() { res = apply(op, ga, gb) }); p != "" {
 				return fmt.Sprintf(phase+"%s.%s(%s) panicked: %s", ta, opNames[op], tb, p)
@@ -628,6 +649,10 @@ func run(c Case) (v vkit.Verdict) {
 					return fmt.Sprintf(phase+"%s.%s(%s): point %v inA=%v inB=%v but in result=%v", ta, opNames[op], tb, p, inA, inB, st)
 				}
 			}
+		}
+		if onlyIntersection {
+			v.Class("two_boxes_at_an_extreme_scale_intersection_only")
+			return ""
 		}
 		// (3) inclusion-exclusion with true areas
 		if d := areaR[0] + areaR[1] - areaA - areaB; vkit.Off(d, 4*tol) {
